@@ -39,6 +39,9 @@ var edDeliberate = map[string]struct{ role, why string }{
 	"field:net/http.Request.GetBody":           {"probe", "the body cannot be rewound: the retry is abandoned and the original response/error is returned"},
 }
 
+// edCalleeDepth: how far ED follows static callees of the attributed functions.
+const edCalleeDepth = 2
+
 var edConstructors = map[string]bool{"errors.New": true, "fmt.Errorf": true, "errors.Join": true,
 	// state queries, not operations that fail
 	"(context.Context).Err": true, "context.Cause": true}
@@ -142,6 +145,46 @@ func edAttributed(c *Ctx) []*ssa.Function {
 				set[a] = true
 			}
 		}
+	}
+	// the helpers the mechanism runs through: static in-module callees (and
+	// closures passed directly), transitively to depth 2; not interface dispatch
+	frontier := make([]*ssa.Function, 0, len(set))
+	for f := range set {
+		frontier = append(frontier, f)
+	}
+	for depth := 0; depth < edCalleeDepth; depth++ {
+		var next []*ssa.Function
+		add := func(g *ssa.Function) {
+			if g == nil || set[g] || len(g.Blocks) == 0 || !inModule(g) {
+				return
+			}
+			set[g] = true
+			next = append(next, g)
+			for _, a := range Anons(g) {
+				if len(a.Blocks) > 0 && !set[a] {
+					set[a] = true
+					next = append(next, a)
+				}
+			}
+		}
+		for _, f := range frontier {
+			AllInstrs(f, func(in ssa.Instruction) {
+				call, ok := in.(ssa.CallInstruction)
+				if !ok || call.Common().IsInvoke() {
+					return
+				}
+				add(StaticCallee(call))
+				for _, a := range call.Common().Args {
+					switch x := a.(type) {
+					case *ssa.MakeClosure:
+						add(x.Fn.(*ssa.Function))
+					case *ssa.Function:
+						add(x)
+					}
+				}
+			})
+		}
+		frontier = next
 	}
 	var out []*ssa.Function
 	for f := range set {
@@ -374,7 +417,13 @@ func edJudge(p *Prog, call ssa.CallInstruction) edVerdict {
 	}
 	if g := StaticCallee(call); g != nil && inModule(g) && len(ifs) > 0 {
 		// only "not found" is an answer rather than a failure
-		if sentinel := edSingleCause(g); sentinel == "~/errdef.ErrNotFound" {
+		// (or an unexported sentinel: a module-private signal such as "unexpected format", not a failure callers can see)
+		sentinel := edSingleCause(g)
+		private := false
+		if i := strings.LastIndex(sentinel, "."); i >= 0 && i+1 < len(sentinel) && sentinel[i+1] >= 'a' && sentinel[i+1] <= 'z' {
+			private = true
+		}
+		if sentinel == "~/errdef.ErrNotFound" || private {
 			return edVerdict{ok: true, how: "the callee fails in exactly one way (" + sentinel + "): comparing its error with nil is the classification"}
 		}
 	}
@@ -706,6 +755,19 @@ func edAlternatives(fn *ssa.Function, call ssa.CallInstruction) map[ssa.Instruct
 	out := map[ssa.Instruction]bool{}
 	n := CalleeName(call)
 	suffix := n
+	if strings.HasPrefix(n, "dyn:") || strings.HasPrefix(n, "field:") {
+		// a function value: the same value again (get(primary) / get(secondary)) or
+		// another function value of the identical type (primary() / secondary())
+		for _, o := range Calls(fn, func(m string) bool { return strings.HasPrefix(m, "dyn:") || strings.HasPrefix(m, "field:") }) {
+			if _, isDefer := o.(*ssa.Defer); isDefer || o == call {
+				continue
+			}
+			if types.Identical(o.Common().Value.Type(), call.Common().Value.Type()) {
+				out[o.(ssa.Instruction)] = true
+			}
+		}
+		return out
+	}
 	if dot := strings.LastIndex(n, ")."); dot >= 0 {
 		suffix = n[dot:]
 	} else if !call.Common().IsInvoke() {
